@@ -140,8 +140,11 @@ func zzNewRingCmp(n int) *zzRing {
 // definition (not from chord.Between): the plain interval when low < high, the complement of (high, low] when the
 // interval wraps past zero, and the whole ring when low == high. One term, no case split.
 func zzInArc(low, h, high uint64) bool {
-	plain := rt.And(low < h, h <= high)
-	wrapped := rt.Or(h > low, h <= high)
+	// ("h <= high" is spelled "h < high or h == high": with strict comparisons and equalities only, the solver relates
+	// the reference to the code's comparisons without bit-level reasoning)
+	upTo := rt.Or(h < high, h == high)
+	plain := rt.And(low < h, upTo)
+	wrapped := rt.Or(low < h, upTo)
 	return rt.IteBool(low == high, true, rt.IteBool(low < high, plain, wrapped))
 }
 
